@@ -39,3 +39,171 @@ Theorem C13_value_refuted_pinned :
   exists s toks, text s toks /\ minify_old (length s + 1) s <> concat toks.
 Proof. exact C13_value_refuted_for_pinned_code. Qed.
 Print Assumptions C13_value_refuted_pinned.
+
+(** ------------------------------------------------------------------------------------------
+    The last clause of C13, for ALL texts of the language "JSON with comments"
+    (MinifyGrammarDefs.v): the RFC 8259 grammar family of Grammar.v with gaps in place of
+    whitespace runs.  [cvalue G] is that family over a gap predicate [G];
+    [C13_comment_grammar_is_rfc_grammar] shows that it differs from Grammar.value in nothing
+    else.  A gap ([MinifyValue.gap]) is any concatenation of space / tab / CR / LF, line
+    comments  //…LF  (no LF inside) and block comments  /*…*/  ending at the first star-slash;
+    the final gap ([gap_end]) may in addition end in one unterminated // or /* comment that
+    runs to the end of the text.  [CJ_text txt v]: txt is such a text and denotes the value v;
+    [CJ_erase txt min v]: a derivation of [CJ_text txt v] together with the text [min] of the
+    same derivation with every gap erased (string literals: the same [chars] derivation, the
+    same bytes).  [NOWS_text]: Grammar.text at the whitespace predicate [fun _ => false]. *)
+From CJ Require Import Dbl Tree LibcNum ParseDefs ParseSpec Grammar ParseComplete
+  MinifyGrammarDefs MinifyGrammar MinifyGrammarExample.
+
+Theorem C13_comment_grammar_is_rfc_grammar : forall is_ws d t v,
+  cvalue (ws is_ws) d t v <-> value is_ws rfc_raw rfc_num_tok d t v.
+Proof. exact cvalue_ws_iff. Qed.
+Print Assumptions C13_comment_grammar_is_rfc_grammar.
+
+(** every RFC 8259 text is a text of the comment language; every text of the comment language
+    has an erasure; an erasure is a derivation of the text it erases *)
+Theorem C13_rfc_text_in_language : forall txt v, RFC_text txt v -> CJ_text txt v.
+Proof. exact RFC_text_CJ. Qed.
+Print Assumptions C13_rfc_text_in_language.
+
+Theorem C13_erasure_exists : forall txt v, CJ_text txt v -> exists min, CJ_erase txt min v.
+Proof. exact CJ_text_erase. Qed.
+Print Assumptions C13_erasure_exists.
+
+Theorem C13_erasure_sound : forall txt min v, CJ_erase txt min v -> CJ_text txt v.
+Proof. exact CJ_erase_text. Qed.
+Print Assumptions C13_erasure_sound.
+
+(** Minify computes the erasure: the result is the same derivation with all gaps removed *)
+Theorem C13_minify_erases_gaps : forall txt min v, CJ_erase txt min v -> minify_spec txt = min.
+Proof. exact minify_CJ. Qed.
+Print Assumptions C13_minify_erases_gaps.
+
+(** "the result parses to a tree equal to that of the original": for every text the parser
+    accepts under RFC 8259 (whitespace-only gaps), original and minified text parse to the
+    tree of the denoted value, the minified one being consumed completely *)
+Theorem C13_parses_equal : forall strtod txt v,
+  strtod_rfc strtod -> RFC_text txt v -> jv_ok v ->
+  option_map fst (text_l strtod txt false) = Some (tree_of strtod v) /\
+  text_l strtod (minify_spec txt) false = Some (tree_of strtod v, []).
+Proof. exact rfc_minify_parses_equal. Qed.
+Print Assumptions C13_parses_equal.
+
+(** with comments (which the parser itself does not accept): the minified text parses to the
+    tree of the value the commented text denotes … *)
+Theorem C13_parses_equal_comments : forall strtod txt v,
+  strtod_rfc strtod -> CJ_text txt v -> jv_ok v ->
+  text_l strtod (minify_spec txt) false = Some (tree_of strtod v, []).
+Proof. exact CJ_text_minify_parse. Qed.
+Print Assumptions C13_parses_equal_comments.
+
+(** … which is the tree of every comment-free spelling [txt'] of the same derivation *)
+Theorem C13_parses_equal_comment_free_spelling : forall strtod txt txt' min v,
+  strtod_rfc strtod -> CJ_erase txt min v -> CJ_erase txt' min v -> RFC_text txt' v -> jv_ok v ->
+  text_l strtod (minify_spec txt) false = Some (tree_of strtod v, []) /\
+  option_map fst (text_l strtod txt' false) = Some (tree_of strtod v) /\
+  minify_spec txt' = minify_spec txt.
+Proof. exact CJ_minify_parses_equal. Qed.
+Print Assumptions C13_parses_equal_comment_free_spelling.
+
+(** "the result contains no whitespace or comments outside strings": it is derivable in the
+    grammar with the EMPTY whitespace predicate, and denotes the same value *)
+Theorem C13_result_has_no_gaps : forall txt v, CJ_text txt v -> NOWS_text (minify_spec txt) v.
+Proof. exact CJ_text_minify_nows. Qed.
+Print Assumptions C13_result_has_no_gaps.
+
+Theorem C13_result_is_rfc_text : forall txt min v, CJ_erase txt min v -> RFC_text min v.
+Proof. exact CJ_erase_rfc. Qed.
+Print Assumptions C13_result_is_rfc_text.
+
+(** "every string literal is preserved byte for byte": besides being the same [chars]
+    derivation in [CJ_erase], every string literal (value or key, quotes included) is one token
+    [tok_str] of a token list that, woven with gaps, is the text up to its final gap and,
+    concatenated, is the result (the hypothesis and conclusion of C13_value) *)
+Theorem C13_strings_preserved : forall txt v, CJ_text txt v ->
+  exists pre w2 toks, txt = pre ++ w2 /\ gap_end w2 /\ MinifyValue.text pre toks /\
+                      Forall tok toks /\ concat toks = minify_spec txt.
+Proof. exact CJ_text_minify_tokens. Qed.
+Print Assumptions C13_strings_preserved.
+
+(** "minifying twice equals minifying once" *)
+Theorem C13_idempotent_grammar : forall txt v, CJ_text txt v ->
+  minify_spec (minify_spec txt) = minify_spec txt.
+Proof. exact CJ_text_minify_idempotent. Qed.
+Print Assumptions C13_idempotent_grammar.
+
+(** everything at once *)
+Theorem C13_comments_summary : forall strtod txt v,
+  strtod_rfc strtod -> CJ_text txt v -> jv_ok v ->
+  exists min, CJ_erase txt min v /\ minify_spec txt = min /\ NOWS_text min v /\ RFC_text min v /\
+              text_l strtod min false = Some (tree_of strtod v, []) /\ minify_spec min = min.
+Proof. exact CJ_text_summary. Qed.
+Print Assumptions C13_comments_summary.
+
+(** buffer level (composition with C13_safe): the transliterated cJSON_Minify, run on the
+    zero-terminated text, stays in bounds and leaves the C string [min] *)
+Theorem C13_buffer_value : forall txt v, CJ_text txt v -> nz txt ->
+  exists b' min, cJSON_Minify (txt ++ [0]) = Ok b'
+          /\ length b' = length (txt ++ [0])
+          /\ cstr b' = min /\ CJ_erase txt min v /\ NOWS_text min v
+          /\ (length min <= length txt)%nat.
+Proof. exact cJSON_Minify_CJ_text. Qed.
+Print Assumptions C13_buffer_value.
+
+(** non-vacuity: a concrete text with both comment kinds, a comment glued to a number, a line
+    comment ended by the end of the text, strings containing //, slash-star, an escaped quote
+    and an escaped backslash before the closing quote (MinifyGrammarExample.v); the derivation
+    is exhibited, Minify and both parses are evaluated with the reference strtod *)
+Theorem C13_parses_equal_nonvacuous :
+  strtod_rfc strtod_ref /\ CJ_erase cx_txt cx_min cx_v /\ CJ_erase cx_plain cx_min cx_v /\
+  RFC_text cx_plain cx_v /\ jv_ok cx_v /\ nz cx_txt /\
+  minify_spec cx_txt = cx_min /\
+  text_l strtod_ref cx_min false = Some (tree_of strtod_ref cx_v, []) /\
+  text_l strtod_ref cx_plain false = Some (tree_of strtod_ref cx_v, [13; 10; 32]).
+Proof. exact minify_grammar_nonvacuous. Qed.
+Print Assumptions C13_parses_equal_nonvacuous.
+
+(** ------------------------------------------------------------------------------------------
+    End to end at buffer level: the transliterated cJSON_Minify followed by the transliterated
+    parser entry points on the buffer Minify leaves behind (its result, the terminator, the
+    stale rest of the original).  [strtod_ok]/[strtod_rfc] are the contracts on the C library's
+    strtod (ParseDefs.v / ParseComplete.v), proved for [strtod_ref]. *)
+From CJ Require Import ParseSafe ParseCompleteEntry MinifyGrammarEntry.
+
+(** the clause as stated: parsing the buffer before and after Minify gives equal trees *)
+Theorem C13_parse_after_minify_equals_parse_before : forall strtod txt v,
+  strtod_ok strtod -> strtod_rfc strtod -> RFC_text txt v -> jv_ok v ->
+  forall rnt, exists b' r0 r1 r0' r1',
+    cJSON_Minify (txt ++ [0]) = Ok b' /\
+    cJSON_Parse strtod never_fails (txt ++ [0]) = Ok r0 /\
+    cJSON_Parse strtod never_fails b' = Ok r1 /\
+    cJSON_ParseWithOpts strtod never_fails (txt ++ [0]) rnt = Ok r0' /\
+    cJSON_ParseWithOpts strtod never_fails b' rnt = Ok r1' /\
+    pr_tree r1 = pr_tree r0 /\ pr_tree r1' = pr_tree r0' /\ pr_tree r0 = pr_tree r0' /\
+    pr_tree r0 = Some (tree_of strtod v).
+Proof. exact minify_preserves_parse. Qed.
+Print Assumptions C13_parse_after_minify_equals_parse_before.
+
+(** JSON with comments: Minify, then parse, yields the tree of the value the commented text
+    denotes *)
+Theorem C13_minify_then_parse : forall strtod txt v,
+  strtod_ok strtod -> strtod_rfc strtod -> CJ_text txt v -> jv_ok v -> nz txt ->
+  forall rnt, exists min beyond r1 r2,
+    CJ_erase txt min v /\
+    cJSON_Minify (txt ++ [0]) = Ok (min ++ 0 :: beyond) /\
+    cJSON_Parse strtod never_fails (min ++ 0 :: beyond) = Ok r1 /\
+    cJSON_ParseWithOpts strtod never_fails (min ++ 0 :: beyond) rnt = Ok r2 /\
+    pr_tree r1 = Some (tree_of strtod v) /\ pr_tree r2 = Some (tree_of strtod v).
+Proof. exact minify_then_parse. Qed.
+Print Assumptions C13_minify_then_parse.
+
+Theorem C13_minify_then_parse_nonvacuous :
+  (exists b' r, cJSON_Minify (cx_txt ++ [0]) = Ok b' /\ cstr b' = cx_min /\
+                cJSON_Parse strtod_ref never_fails b' = Ok r /\
+                pr_tree r = Some (tree_of strtod_ref cx_v)) /\
+  (exists b' r0 r1, cJSON_Minify (cx_plain ++ [0]) = Ok b' /\
+                cJSON_Parse strtod_ref never_fails (cx_plain ++ [0]) = Ok r0 /\
+                cJSON_Parse strtod_ref never_fails b' = Ok r1 /\
+                pr_tree r0 = Some (tree_of strtod_ref cx_v) /\ pr_tree r1 = pr_tree r0).
+Proof. exact minify_then_parse_example. Qed.
+Print Assumptions C13_minify_then_parse_nonvacuous.
